@@ -21,9 +21,9 @@ import (
 	"crypto/x509"
 	"crypto/x509/pkix"
 	"encoding/asn1"
-	"math/big"
 	"encoding/json"
 	"fmt"
+	"math/big"
 	"os"
 	"runtime"
 	"sync"
@@ -51,6 +51,7 @@ type c03Case struct {
 	Required    bool   `json:"required"` // the credential the policy requires was proved
 	Suite       string `json:"suite"`    // optional: cipher suite override
 	KeyType     string `json:"keyType"`  // "" (ECDSA) | "rsa"  credentials of the rogue server
+	NameKind    string `json:"nameKind"` // server name the honest client is configured with: "" (DNS name) | "ip4" | "ip6" (address literals)
 }
 
 type c03Result struct {
@@ -363,7 +364,14 @@ func runC03Case(idx int, cs *c03Case) (res c03Result) { //nolint:cyclop,gocognit
 		if cs.Honest == "c" {
 			// honest client: chain verification per VerifyChain; rogue server presents the credential
 			if cs.VerifyChain {
-				co = append(co, WithInsecureSkipVerify(false), WithRootCAs(p.pool), WithServerName(labServerName))
+				sn := labServerName
+				switch cs.NameKind {
+				case "ip4":
+					sn = labServerIP4
+				case "ip6":
+					sn = labServerIP6
+				}
+				co = append(co, WithInsecureSkipVerify(false), WithRootCAs(p.pool), WithServerName(sn))
 			} else {
 				co = append(co, WithInsecureSkipVerify(true))
 			}
